@@ -889,3 +889,100 @@ Example simple_cfg_inhabited :
   /\ simple_cfg w1_es w1_name = false      (* the findings' regions are outside *)
   /\ simple_cfg w2_es w2_name = false.
 Proof. repeat split; vm_compute; reflexivity. Qed.
+
+(* ------------------------------------------------------------------------------------------ *)
+(* ssh_config_factory: the per-path cache is invisible on EVERY history of direct lookups and  *)
+(* driver constructions (any paths, any names, explicit values or not), provided no consumer   *)
+(* writes to the object lookup returned; refuted when one does.                                *)
+(* ------------------------------------------------------------------------------------------ *)
+Section CacheProofs.
+  Variable file : bytes -> list (bytes * host).
+
+  (* the invariant: every cached parse is the parse of its file *)
+  Definition cinv (c : cache) : Prop := forall p d, cget p c = Some d -> build (file p) = Ok d.
+
+  Lemma cget_cset_same p d c : cget p (cset p d c) = Some d.
+  Proof.
+    induction c as [|[p' d'] c IH]; cbn; [rewrite sbeq_refl; reflexivity|].
+    destruct (beq p p') eqn:E; cbn; rewrite ?E; [reflexivity|exact IH].
+  Qed.
+
+  Lemma cget_cset_other p q d c : q <> p -> cget q (cset p d c) = cget q c.
+  Proof.
+    intros N. induction c as [|[p' d'] c IH]; cbn; [rewrite (sbeq_neq _ _ N); reflexivity|].
+    destruct (beq p p') eqn:E; cbn.
+    - apply sbeq_eq in E. subst p'. rewrite (sbeq_neq _ _ N). reflexivity.
+    - rewrite IH. reflexivity.
+  Qed.
+
+  Lemma cinv_cset p d c : cinv c -> build (file p) = Ok d -> cinv (cset p d c).
+  Proof.
+    intros I B q d' G. destruct (beq q p) eqn:E.
+    - apply sbeq_eq in E. subst q. rewrite cget_cset_same in G. inversion G. subst. exact B.
+    - apply sbeq_false_neq in E. rewrite (cget_cset_other _ _ _ _ E) in G. apply I, G.
+  Qed.
+
+  Lemma sstep_ok c o :
+    cinv c -> cinv (fst (sstep file false c o)) /\ snd (sstep file false c o) = sspec_one file o.
+  Proof.
+    intros I. destruct o as [p n|p n x|p]; cbn [sstep sspec_one]; unfold factory, run;
+      destruct (cget p c) as [d|] eqn:G.
+    - rewrite (I _ _ G). cbn [fst snd]. split; [exact I|reflexivity].
+    - destruct (build (file p)) as [d| |] eqn:B; cbn [fst snd]; (split; [|reflexivity]); try exact I.
+      apply cinv_cset; assumption.
+    - rewrite (I _ _ G). destruct (lookup d n) as [[k h]| |]; cbn [fst snd]; (split; [exact I|reflexivity]).
+    - destruct (build (file p)) as [d| |] eqn:B; cbn [fst snd]; try (split; [exact I|reflexivity]).
+      destruct (lookup d n) as [[k h]| |]; cbn [fst snd]; (split; [apply cinv_cset; assumption|reflexivity]).
+    - rewrite (I _ _ G). cbn [fst snd]. split; [exact I|reflexivity].
+    - destruct (build (file p)) as [d| |] eqn:B; cbn [fst snd]; (split; [|reflexivity]); try exact I.
+      apply cinv_cset; assumption.
+  Qed.
+
+  (* every history: the invariant is kept and the outputs are those of a fresh parse of the file *)
+  Theorem cache_invisible : forall ops c,
+    cinv c -> cinv (fst (srun file false c ops)) /\ snd (srun file false c ops) = sspec file ops.
+  Proof.
+    induction ops as [|o ops IH]; intros c I; [split; [exact I|reflexivity]|].
+    cbn [srun sspec map]. destruct (sstep file false c o) as [c' out] eqn:Es.
+    pose proof (sstep_ok c o I) as [I' Ho]. rewrite Es in I', Ho. cbn [fst snd] in I', Ho.
+    destruct (IH c' I') as [I'' Hs]. destruct (srun file false c' ops) as [c'' outs].
+    cbn [fst snd] in *. split; [exact I''|]. rewrite Ho, Hs. reflexivity.
+  Qed.
+
+  Corollary cache_invisible_from_empty ops :
+    cinv (fst (srun file false [] ops)) /\ snd (srun file false [] ops) = sspec file ops.
+  Proof. apply cache_invisible. intros p d G. discriminate G. Qed.
+End CacheProofs.
+
+(* the premises are satisfied by a non-trivial history: two paths, a wildcard entry shared by two
+   hosts, drivers with and without explicit values interleaved with direct lookups *)
+Definition cw_path1 : bytes := [97].
+Definition cw_path2 : bytes := [98].
+Definition cw_file (p : bytes) : list (bytes * host) :=
+  if beq p cw_path1
+  then [([115;119;49], mkHost None (Some 2201) [117] None (Some [47;107]));            (* sw1 *)
+        ([101;45;42], mkHost None (Some 2202) [101] None None)]                       (* e-* *)
+  else [([115;119;49], mkHost None (Some 99) [] None None)].
+Definition cw_ops : list sop :=
+  [SDriver cw_path1 [115;119;49] (mkEx (Some 830) [109] []);      (* sw1, port= and auth_username= *)
+   SLookup cw_path1 [115;119;49];
+   SDriver cw_path1 [101;45;49] (mkEx None [] [47;120]);          (* e-1, auth_private_key= *)
+   SDriver cw_path1 [101;45;50] (mkEx None [] []);                (* e-2 under the same wildcard *)
+   SLookup cw_path2 [115;119;49];
+   SDriver cw_path1 [115;119;49] (mkEx None [] []);
+   SDump cw_path2].
+
+Example cache_invisible_nontrivial :
+  snd (srun cw_file false [] cw_ops) =
+    [ODriver (830, [109], [47;107]);
+     OHost ([115;119;49], mkHost None (Some 2201) [117] None (Some [47;107]));
+     ODriver (2202, [101], [47;120]);
+     ODriver (2202, [101], []);
+     OHost ([115;119;49], mkHost None (Some 99) [] None None);
+     ODriver (2201, [117], [47;107]);
+     ODict [([115;119;49], mkHost None (Some 99) [] None None); (star_key, default_host)]].
+Proof. vm_compute. reflexivity. Qed.
+
+(* a consumer that writes to the looked-up object changes what later lookups return *)
+Example cache_visible_when_written : snd (srun cw_file true [] cw_ops) <> sspec cw_file cw_ops.
+Proof. vm_compute. discriminate. Qed.
